@@ -346,6 +346,10 @@ def core_preconditions():
         ["or", ["p", "?x"]],
         ["or", ["=", "?x", "?y"], ["p", "?x"]],
         ["or", ["not", ["=", "?x", "?y"]], ["r"]],
+        # junctions made of object (in)equalities only (the library keeps those outside the operand set)
+        ["or", ["=", "?x", "?y"]],
+        ["and", ["not", ["=", "?x", "?y"]]],
+        ["or", ["=", "?x", "?y"], ["=", "?y", "?x"]],
     ]
     for nd in nested:
         out.append(("P2", ["and", nd]))
